@@ -48,6 +48,18 @@ IsSucc(x, C) == x.cond = "NoError" /\ x.deliv = "Complete" /\ (C.isfile => x.fst
 
 TxKinds == {"eof", "fin", "nak"}
 
+\* the modular checksum of the held part equals that of the whole file (the same weights as Receiver!CkOf: a unit of
+\* value 1 counts +1, of value 2 counts -1; one-byte units are summed per byte lane) - the loss is checksum-neutral
+PCkW(v) == IF v = 2 THEN -1 ELSE v
+PCkOf(C, held) ==
+  LET L == IF C.unit >= 4 THEN 1 ELSE 4
+      lane(j) == LET us == {u \in held : u % L = j /\ u < NUnits(C)}
+                     f[S \in SUBSET us] == IF S = {} THEN 0
+                                            ELSE LET x == CHOOSE y \in S : TRUE IN f[S \ {x}] + PCkW(C.file[x + 1])
+                 IN f[us]
+  IN [j \in 0 .. (L - 1) |-> lane(j)]
+PCkNeutral(C, held) == C.cksum = "null" \/ PCkOf(C, held) = PCkOf(C, AllUnits(C))
+
 ObsInit(C) ==
   [ susp      |-> [e \in Ents |-> FALSE],   \* suspended by the user
     excused   |-> [e \in Ents |-> FALSE],   \* a limit fault configured Ignore/Suspend has occurred
@@ -267,8 +279,10 @@ Step(o, ev, C) ==
       \* =========================================================== violations
       v01 == {"C01:DeliveredIsSource" : x \in {y \in finIndR \cup finIndS : C.isfile /\ IsSucc(y, C) /\ ev.dest.st # "eq"}}
 
-      bothEnded == ended2["S"] /\ ended2["R"]
-      justEnded == bothEnded /\ ~(o.ended["S"] /\ o.ended["R"])
+      \* (a receive transaction that was never started counts as ended once the sender has: with fewer faults than the
+      \*  limit some PDU gets through, and every PDU towards the receiver starts one - lib.rs Vacant entry)
+      bothEnded == ended2["S"] /\ (ended2["R"] \/ ~born2["R"])
+      justEnded == bothEnded /\ ~(o.ended["S"] /\ (o.ended["R"] \/ ~o.born["R"]))
       \* a direction going dark for good is beyond any bounded number of faults
       nfaults2 == o.nfaults + (IF isFault THEN 1 ELSE 0) + (IF ev.a = "Blackout" THEN C.limit ELSE 0)
       suspTime2 == Min2(o.suspTime + (IF \E e \in Ents : o.susp[e] THEN dt ELSE 0), Bound(C) + 1)
@@ -358,7 +372,9 @@ Step(o, ev, C) ==
       faultOk(x) ==
         LET k == IF x.e = "S" THEN "eof" ELSE "fin" IN
         CASE x.cond = "PositiveLimitReached" -> countOk(o.tx[k]) /\ o.tx[k].gapok /\ o.tx[k].since >= ToAck(C)
+          \* (... and no file data arrived since the last NAK went out: progress resets the count)
           [] x.cond = "NakLimitReached" -> countOk(o.tx["nak"]) /\ o.tx["nak"].gapok /\ o.tx["nak"].since >= ToNak(C)
+                                           /\ Cardinality(o.held) = o.tx["nak"].mark
           [] x.cond = "InactivityDetected" -> o.idle[x.e] >= C.limit * ToInact(C)
           [] OTHER -> TRUE
       handlerOk(x) ==
@@ -424,7 +440,11 @@ Step(o, ev, C) ==
       Consequences == {"C13:RequestsOutsideDelivery", "C13:ResponsesDiffer", "C04:FileChanged", "C04:RequestsRedone"}
       \* (a "delivery" reported without the metadata cannot have run the requests the metadata carries)
       sigNotRun == isUnack /\ ~rxMeta2
-      sigOf(tag) == IF tag \in {"C18:IncompleteNotComplete", "C01:DeliveredIsSource"} /\ incompleteUnack /\ finIndS = {}
+      \* (a holed FILE passes for the source only when the lost bytes are checksum-neutral - Receiver!CkMatches; a file
+      \*  delivered although its checksum does not match is NOT the recorded finding)
+      sigOf(tag) == IF tag = "C18:IncompleteNotComplete" /\ incompleteUnack /\ finIndS = {}
+                    THEN "unack-incomplete-reported-complete"
+                    ELSE IF tag = "C01:DeliveredIsSource" /\ incompleteUnack /\ finIndS = {} /\ PCkNeutral(C, held2)
                     THEN "unack-incomplete-reported-complete"
                     ELSE IF tag \in Consequences /\ isUnack /\ o.kf /\ o.rinc > 1 THEN "unack-incomplete-reported-complete"
                     ELSE IF tag = "C13:RequestsNotRun" /\ sigNotRun THEN "unack-incomplete-reported-complete"
